@@ -157,7 +157,21 @@ def run_scenario(run, e4, sc):
         # widen the window between fork() and the worker installing its own signal handlers
         conf_extra += ("def post_fork(server, worker):\n    _ev('post_fork', age=worker.age, wpid=worker.pid)\n"
                       "    import time as _t\n    _t.sleep(%s)\n" % sc["slow_boot"])
-    srv = e4.Server("c10", worker_class=wc, workers=gens[0][0], settings=settings, bind=sc["bind"], conf_extra=conf_extra)
+    server_kw = {}
+    if sc.get("conf_ref"):
+        # the configuration file is not named by an absolute path: `-c gunicorn.conf.py` relative to the directory the server is
+        # started in, or not named at all (the default ./gunicorn.conf.py of that directory), and the file itself sends the server
+        # to another working directory (`chdir`): every reload has to find the same file again
+        server_kw["default_conf"] = True
+        if sc["conf_ref"] != "default":
+            server_kw["argv_extra"] = ["-c", sc["conf_ref"]]
+    srv = e4.Server("c10", worker_class=wc, workers=gens[0][0], settings=settings, bind=sc["bind"], conf_extra=conf_extra, **server_kw)
+    site = None
+    if sc.get("conf_ref"):
+        site = os.path.join(srv.dir, "site")
+        os.mkdir(site)
+        os.chmod(site, 0o777)
+        srv.write_conf(chdir=site)
     lag = e4.LagProbe()
     lag.start()
     stop = threading.Event()
@@ -166,6 +180,12 @@ def run_scenario(run, e4, sc):
         srv.start()
         if not srv.wait_workers(gens[0][0], 40 if gens[0][0] > 8 else 25) or not srv.wait_listening(5):
             return v, "server did not boot: %s" % srv.stderr()[-300:], info
+        if site:
+            try:
+                if os.path.realpath(os.readlink("/proc/%d/cwd" % srv.master_pid)) != os.path.realpath(site):
+                    return v, "the master does not run in the directory its configuration file names (chdir)", info
+            except OSError:
+                return v, "the master's working directory cannot be read", info
         ino0 = listener_inodes(srv)
         mino0 = master_socket_inodes(srv.master_pid) & ino0
         if not mino0:
@@ -309,6 +329,8 @@ def run_scenario(run, e4, sc):
         if not e4.alive(srv.master_pid):
             v.append(("master-died-during-reload", srv.stderr()[-300:]))
             return v, None, info
+        if site:
+            run.count("relative_conf_with_chdir_reload_checks")
         deadline = time.monotonic() + 6
         live = srv.worker_pids()
         while time.monotonic() < deadline and len(live) != final_workers:
@@ -427,6 +449,15 @@ def scenarios(tier, seed):
         # a HUP with a changed file while the previous reload is still forking its workers (slow pre_fork hook)
         out.append({"class": r3.choice(classes), "configs": [(2, 1), (3, 2), (r3.choice([1, 2]), 3)], "hup_delays": [0.5, r3.choice([0.4, 0.6])],
                     "clients": 4, "bind": "tcp", "kind": "hup-while-forking", "slow_prefork": 0.4})
+        # the configuration file is named relative to the start directory (or found there by default) and sets `chdir`: one or two reloads
+        r4 = rng_for(seed, "c10-relative-conf", rep)
+        refs = ["gunicorn.conf.py", "./gunicorn.conf.py", "default"]
+        r4.shuffle(refs)
+        for wc, ref in zip([classes[(seed + rep + 3) % 4], classes[(seed + rep + 1) % 4]], refs):
+            n = r4.choice([1, 2])
+            out.append({"class": wc, "configs": [(2, 1)] + [(r4.randint(1, 3), g + 2) for g in range(n)],
+                        "hup_delays": [r4.choice([0.5, 0.8])] + [r4.choice([0.3, 1.2])] * (n - 1), "clients": 4,
+                        "bind": r4.choice(["tcp", "unix"]), "kind": "relative-conf-chdir", "conf_ref": ref})
     for i, sc in enumerate(out):
         sc["seed"] = seed
         sc["idx"] = i
@@ -444,13 +475,14 @@ def shard(sh):
             break
         run.count("retries_after_inconclusive")
     run.case(json.dumps({k: sc.get(k) for k in ("class", "configs", "hup_delays", "bind", "kind", "pre_signals", "keepalive_clients",
-                                                 "slow_prefork")}, sort_keys=True),
+                                                 "slow_prefork", "conf_ref")}, sort_keys=True),
              nontrivial=info.get("overlapping_a_hup", 0) > 0)
     run.count("scenarios")
     run.count("class/" + sc["class"])
     run.count("kind/" + sc["kind"])
     for mech, summary in v:
-        run.violation(mech, summary + " | scenario=%s info=%s" % ({k: sc[k] for k in ("class", "configs", "hup_delays", "bind")}, info), sc)
+        run.violation(mech, summary + " | scenario=%s info=%s" % ({k: sc[k] for k in ("class", "configs", "hup_delays", "bind", "kind", "conf_ref")
+                                                                   if k in sc}, info), sc)
     if reason is not None and not v:
         if "scheduling lag" in reason:
             run.count("cells_skipped_for_scheduling_lag")      # measured lag made the wall-clock judgement unsafe, three times
@@ -467,7 +499,7 @@ def main(tier, seed):
                 "kind/ttin-then-hup", "long_request_across_reload_checks", "kind/two-listeners", "kind/unix-bind", "kind/double-slowboot",
                 "kind/keepalive-client", "keepalive_responses_on_reused_connection", "keepalive_connection_across_hup_checks",
                 "kind/large-pool", "reloads_of_a_large_pool_completed", "kind/hup-while-forking",
-                "hup_while_previous_reload_forks_checks")
+                "hup_while_previous_reload_forks_checks", "kind/relative-conf-chdir", "relative_conf_with_chdir_reload_checks")
     shards = [{"scenario": sc, "seed": seed, "tier": tier} for sc in scenarios(tier, seed)]
     run.assumptions = [
         "for non-sync workers a connection closed with zero response bytes is the accepted-but-not-yet-read case the statement does not cover: "
@@ -476,6 +508,8 @@ def main(tier, seed):
         "a request sent on an already used keep-alive connection that ends without a byte counts as 'started reading' only when the "
         "application's own log shows that it was entered for that request (per-request tag); otherwise it is the ordinary keep-alive "
         "race (connection closed while the request travelled) and is only counted",
+        "relative-conf-chdir: the server is started as `gunicorn -c gunicorn.conf.py` (or with no -c: ./gunicorn.conf.py) in its scratch "
+        "directory and the file sets `chdir` to a sub-directory from which that relative name does not resolve; judged like every other reload",
         "hooks in the configuration file that take time (pre_fork 0.4 s, worker_exit 0-15 ms depending on the pid) are part of the "
         "environment: they widen windows, they do not change what the master has to do",
     ]
